@@ -85,13 +85,21 @@ fn source_flag(id: &Option<String>, srcid: &str) -> i64 {
 ///   (2 u)                     Ok, but adding the returned annotations failed
 ///   (3 u)                     Ok and added, but the announced transposition cannot be read back
 ///   (-1)                      panic
-fn transpose_obs(store: &mut AnnotationStore, srcid: &str, mode: i64, viaid: &str, side: i64, newid: &str, tprefix: &str, nsides: usize) -> Sx {
+/// idmode: which identifiers the caller supplies besides the transposition id: 0 all (every target
+/// side, the resegmentation), 1 none (the library generates them), 2 only the first target side
+fn transpose_obs(store: &mut AnnotationStore, srcid: &str, mode: i64, viaid: &str, side: i64, newid: &str, tprefix: &str, nsides: usize, idmode: i64) -> Sx {
     let before = snapshot(store);
     let config = TransposeConfig {
         source_side: if side < 0 { TranspositionSide::Auto } else { TranspositionSide::ByIndex(side as usize) },
         transposition_id: Some(newid.to_string()),
-        resegmentation_id: Some(format!("{}-reseg", newid)),
-        target_side_ids: (0..nsides).map(|i| format!("{}{}", tprefix, i)).collect(),
+        resegmentation_id: if idmode == 0 { Some(format!("{}-reseg", newid)) } else { None },
+        target_side_ids: (0..match idmode {
+            0 => nsides,
+            2 => 1,
+            _ => 0,
+        })
+            .map(|i| format!("{}{}", tprefix, i))
+            .collect(),
         ..Default::default()
     };
     let r = guard(|| {
@@ -109,10 +117,34 @@ fn transpose_obs(store: &mut AnnotationStore, srcid: &str, mode: i64, viaid: &st
         None => l(vec![a(-1)]),
         Some(Err(_)) => l(vec![a(0), unchanged]),
         Some(Ok(builders)) => {
-            let added = guard(|| store.annotate_from_iter(builders.into_iter()));
+            // every returned annotation is added on its own: all must be accepted, as that many new
+            // annotations with pairwise distinct public ids (seen through the store)
+            let nbuilders = builders.len();
+            let nbefore = store.annotations_len();
+            let added = guard(|| {
+                let mut handles = Vec::new();
+                for builder in builders {
+                    match store.annotate(builder) {
+                        Ok(h) => handles.push(h),
+                        Err(e) => return Err(e),
+                    }
+                }
+                Ok(handles)
+            });
+            let distinct = |store: &AnnotationStore, hs: &Vec<AnnotationHandle>| -> bool {
+                let mut ids: Vec<String> = hs.iter().filter_map(|h| store.annotation(*h)).filter_map(|x| x.id().map(|s| s.to_string())).collect();
+                let n = ids.len();
+                ids.sort();
+                ids.dedup();
+                let mut hh: Vec<usize> = hs.iter().map(|h| h.as_usize()).collect();
+                hh.sort();
+                hh.dedup();
+                n == hs.len() && ids.len() == n && hh.len() == n
+            };
             match added {
                 None => l(vec![a(-1)]),
                 Some(Err(_)) => l(vec![a(2), unchanged]),
+                Some(Ok(hs)) if hs.len() != nbuilders || store.annotations_len() != nbefore + nbuilders || !distinct(store, &hs) => l(vec![a(2), unchanged]),
                 Some(Ok(_)) => match store.annotation(newid) {
                     None => l(vec![a(3), unchanged]),
                     Some(t2) => {
@@ -147,7 +179,9 @@ impl Ctx {
     ///   kind 1: complex transposition, sides = (((res b e) ...) ...) one annotation per side
     ///   source annotation "src" over resource res with the listed ranges (in that order)
     ///   side = -1: TranspositionSide::Auto, i: ByIndex(i); mode 0: transpose the annotation, 1: its text selection set;
-    ///   optional third element: selector of a multi-range source 0 Directional (default), 1 Multi, 2 Composite
+    ///   optional third element: selector of a multi-range source 0 Directional (default), 1 Multi, 2 Composite;
+    ///   optional fourth: identifiers the caller leaves to the library: 0 only that of a copied/resegmented source
+    ///   (default), 1 also those of every target side and of the resegmentation, 2 as 1 but the first target side is named
     /// model input: (texts (kind sides-as-read-back) (res ranges-as-read-back) (side mode) fwd back_byindex back_auto)
     /// sub-cases: 0 forward; 1 back over the new transposition with ByIndex(j) for every target side j;
     ///            2 the same with Auto
@@ -159,6 +193,7 @@ impl Ctx {
         let side = req.nth(3).nth(0).int();
         let mode = req.nth(3).nth(1).int();
         let selkind = req.nth(3).nth(2).int();
+        let idmode = req.nth(3).nth(3).int();
         let skip = |why: i64| (l(vec![a(-1), a(why)]), vec![], false);
 
         let mut store = AnnotationStore::default().with_id("c16");
@@ -217,7 +252,7 @@ impl Ctx {
             )
         };
 
-        let fwd = transpose_obs(&mut store, "src", mode, "T", side, "T2", "t", nsides);
+        let fwd = transpose_obs(&mut store, "src", mode, "T", side, "T2", "t", nsides, idmode);
         let mut back_idx = Vec::new();
         let mut back_auto = Vec::new();
         if fwd.nth(0).int() == 1 {
@@ -227,8 +262,8 @@ impl Ctx {
                 sides.iter().enumerate().filter(|(_, (id, _))| source_flag(id, "src") == 0).map(|(j, (id, _))| (j, id.clone().unwrap_or_default())).collect()
             };
             for (j, id) in &ids {
-                back_idx.push(transpose_obs(&mut store, id, 0, "T2", *j as i64, &format!("T3i{}", j), &format!("bi{}_", j), nsides));
-                back_auto.push(transpose_obs(&mut store, id, 0, "T2", -1, &format!("T3a{}", j), &format!("ba{}_", j), nsides));
+                back_idx.push(transpose_obs(&mut store, id, 0, "T2", *j as i64, &format!("T3i{}", j), &format!("bi{}_", j), nsides, idmode));
+                back_auto.push(transpose_obs(&mut store, id, 0, "T2", -1, &format!("T3a{}", j), &format!("ba{}_", j), nsides, idmode));
             }
         }
         let obs = vec![fwd.clone(), l(back_idx), l(back_auto)];
@@ -251,12 +286,22 @@ fn req_sx(texts: &[String], kind: i64, sides: &[Vec<Frag>], srcres: usize, range
 }
 
 fn req_sx_k(texts: &[String], kind: i64, sides: &[Vec<Frag>], srcres: usize, ranges: &[(usize, usize)], side: i64, mode: i64, selkind: i64) -> Sx {
+    req_sx_ki(texts, kind, sides, srcres, ranges, side, mode, selkind, 0)
+}
+
+fn req_sx_ki(texts: &[String], kind: i64, sides: &[Vec<Frag>], srcres: usize, ranges: &[(usize, usize)], side: i64, mode: i64, selkind: i64, idmode: i64) -> Sx {
     let sides_sx = if kind == 0 { l(sides.iter().map(|s| frag_sx(&s[0])).collect()) } else { l(sides.iter().map(|s| frags_sx(s)).collect()) };
     l(vec![
         l(texts.iter().map(|t| crate::sx::text(t)).collect()),
         l(vec![a(kind), sides_sx]),
         l(vec![a(srcres as i64), l(ranges.iter().map(|(x, y)| l(vec![a(*x as i64), a(*y as i64)])).collect())]),
-        if selkind == 0 { l(vec![a(side), a(mode)]) } else { l(vec![a(side), a(mode), a(selkind)]) },
+        if idmode != 0 {
+            l(vec![a(side), a(mode), a(selkind), a(idmode)])
+        } else if selkind == 0 {
+            l(vec![a(side), a(mode)])
+        } else {
+            l(vec![a(side), a(mode), a(selkind)])
+        },
     ])
 }
 
@@ -482,6 +527,16 @@ pub fn generate(out: &mut Out, tier: &str, seed: u64) {
                         emit(out, req_sx(&lay.texts, lay.kind, &lay.sides, res, &[*r], side, mode), lay.name);
                     }
                 }
+                // identifiers of the transposed annotations (and of the resegmentation) left to the library
+                for idmode in 1..=2 {
+                    for mode in 0..2 {
+                        emit(out, req_sx_ki(&lay.texts, lay.kind, &lay.sides, res, &[*r], -1, mode, 0, idmode), lay.name);
+                        out.count("generated_ids");
+                        if nsides >= 3 {
+                            out.count("generated_ids_three_sides");
+                        }
+                    }
+                }
             }
             // two ranges: all ordered pairs over a grid of positions (every position in the thorough tier)
             let grid: Vec<(usize, usize)> = if thorough { rs.clone() } else { rs.iter().filter(|(x, y)| (x % 2 == 0 || *x == tl) && (y % 2 == 0 || *y == tl || y == x)).cloned().collect() };
@@ -505,11 +560,18 @@ pub fn generate(out: &mut Out, tier: &str, seed: u64) {
             if selkind != 0 {
                 out.count("source_multi_or_composite");
             }
-            emit(out, req_sx_k(&texts, kind, &sides, res, &ranges, side, mode, selkind), if kind == 0 { "random_simple" } else { "random_complex" });
+            let idmode = if rng.chance(1, 2) { 0 } else { 1 + rng.below(2) as i64 };
+            if idmode != 0 {
+                out.count("generated_ids");
+                if sides.len() >= 3 {
+                    out.count("generated_ids_three_sides");
+                }
+            }
+            emit(out, req_sx_ki(&texts, kind, &sides, res, &ranges, side, mode, selkind, idmode), if kind == 0 { "random_simple" } else { "random_complex" });
         }
     }
 }
 
-pub const RULE: &str = "exhaustive: 17 fixed layouts of 1-3 texts sharing fragments (adjacent fragments, sides listing them reversed / re-ordered, fragments re-ordered in the other text, three sides with two in one resource, zero-width fragments, overlapping fragments, gaps, both sides in one resource, a side spanning two resources, overlapping sides, simple transpositions with 2 and 3 sides, four ill-formed ones) x every resource as source x every single range 0<=b<=e<=len x TranspositionSide Auto / every index / one beyond x annotation or text selection set, plus all ordered pairs of ranges over a position grid (every position in the thorough tier); random: texts over small alphabets (incl. multi-byte) cut into up to 5 fragments with gaps, now and then a zero-width or overlapping fragment, 1-2 derived texts (re-ordered, filler inserted, sometimes appended to the same resource), sides listed in random order, 1-3 source ranges of every position class (inside one fragment, between two fragments, partly outside, anywhere), multi-range sources as Directional, Multi or Composite selector. Per case: transpose, annotate_from_iter of the result, new transposition read back through annotations_in_targets/textselections, store compared before/after transpose(), then every target side transposed back over the new transposition with ByIndex and with Auto. The property predicate (piecewise equal text on all sides, source side = the source cut into consecutive pieces, inside the text, right resources, coverage, unchanged store, exact offsets on the way back) is evaluated by the extracted specification on what the implementation returned; the model's answer is compared with the implementation's. Non-trivial = the forward transposition succeeded; distinct = distinct request lines.";
+pub const RULE: &str = "exhaustive: 17 fixed layouts of 1-3 texts sharing fragments (adjacent fragments, sides listing them reversed / re-ordered, fragments re-ordered in the other text, three sides with two in one resource, zero-width fragments, overlapping fragments, gaps, both sides in one resource, a side spanning two resources, overlapping sides, simple transpositions with 2 and 3 sides, four ill-formed ones) x every resource as source x every single range 0<=b<=e<=len x TranspositionSide Auto / every index / one beyond x annotation or text selection set, every single range also with the identifiers of the transposed annotations / the resegmentation left to the library (all of them, or all but the first target side), plus all ordered pairs of ranges over a position grid (every position in the thorough tier); random: texts over small alphabets (incl. multi-byte) cut into up to 5 fragments with gaps, now and then a zero-width or overlapping fragment, 1-2 derived texts (re-ordered, filler inserted, sometimes appended to the same resource), sides listed in random order, 1-3 source ranges of every position class (inside one fragment, between two fragments, partly outside, anywhere), multi-range sources as Directional, Multi or Composite selector. Half of the random cases leave identifiers to the library. Per case: transpose, every returned builder added with annotate() (all must be accepted as that many new annotations with pairwise distinct ids), new transposition read back through annotations_in_targets/textselections, store compared before/after transpose(), then every target side transposed back over the new transposition with ByIndex and with Auto. The property predicate (piecewise equal text on all sides, source side = the source cut into consecutive pieces, inside the text, right resources, coverage, unchanged store, exact offsets on the way back) is evaluated by the extracted specification on what the implementation returned; the model's answer is compared with the implementation's. Non-trivial = the forward transposition succeeded; distinct = distinct request lines.";
 
 pub const EXHAUSTIVE: bool = true;
